@@ -85,6 +85,8 @@ fn main() {
                     // a panic outside a guarded call is a harness error: record it, the runner treats it as tool error
                     writeln!(outf, "{}", json!({"fam": sc["fam"], "sc": sid, "ev": "harness_panic", "msg": msg})).unwrap();
                 }
+                // flushed after every script: if the code under test takes the process down, the runner can tell on which script
+                outf.flush().unwrap();
             }
             outf.flush().unwrap();
             eprintln!("events={}", n_ev);
